@@ -11,6 +11,7 @@ import (
 	"context"
 	"fmt"
 	"sync"
+	"time"
 
 	"github.com/milvus-io/milvus-proto/go-api/v2/commonpb"
 	"github.com/milvus-io/milvus-proto/go-api/v2/msgpb"
@@ -49,6 +50,44 @@ type MQ struct {
 	RegisterErr func(vchannel string) error
 	feeders     sync.WaitGroup
 	pending     map[string]int // vchannel -> packs not yet delivered
+	// LatestIsPublished: a registration without a position subscribes at the end of what has been
+	// published so far (a pack counts as published once it has been delivered to some registration of any
+	// MQ sharing this source) instead of at the head of the scripted log. Used by restart harnesses.
+	LatestIsPublished bool
+	pub               *published
+	// TickGap, when non-zero, is the (virtual) time that passes before a tick-only pack arrives: a live source
+	// emits ticks at wall-clock intervals.
+	TickGap time.Duration
+	// DeadDeregister, when set and true, turns Deregister into a no-op (fenced incarnation).
+	DeadDeregister func() bool
+	// OnRegister, when set, observes every successful registration.
+	OnRegister func(RegRecord)
+	// Fence, when set, is called at the start of every client call (a crashed incarnation blocks there forever).
+	Fence func()
+}
+
+type published struct {
+	mu sync.Mutex
+	n  map[string]int // vchannel -> number of packs published
+}
+
+// Fork returns a new MQ (no registrations) over the same immutable logs and the same publication marks:
+// what a new process incarnation sees of the same message queue.
+func (m *MQ) Fork(s Sched) *MQ {
+	if s == nil {
+		s = noSched{}
+	}
+	m.mu.Lock()
+	defer m.mu.Unlock()
+	return &MQ{S: s, logs: m.logs, regs: map[string]*reg{}, pending: map[string]int{}, LatestIsPublished: m.LatestIsPublished, pub: m.pub, TickGap: m.TickGap,
+		ParkRegister: m.ParkRegister}
+}
+
+// Published reports how many packs of the vchannel have been published (delivered at least once).
+func (m *MQ) Published(v string) int {
+	m.pub.mu.Lock()
+	defer m.pub.mu.Unlock()
+	return m.pub.n[v]
 }
 
 type reg struct {
@@ -61,7 +100,7 @@ func New(s Sched) *MQ {
 	if s == nil {
 		s = noSched{}
 	}
-	return &MQ{S: s, logs: map[string][]*msgstream.MsgPack{}, regs: map[string]*reg{}, pending: map[string]int{}}
+	return &MQ{S: s, logs: map[string][]*msgstream.MsgPack{}, regs: map[string]*reg{}, pending: map[string]int{}, pub: &published{n: map[string]int{}}}
 }
 
 // SetLog installs the immutable source log of one vchannel.
@@ -126,6 +165,9 @@ func CloneMsg(msg msgstream.TsMsg) msgstream.TsMsg {
 func (m *MQ) filter(vchannel string, pos *msgpb.MsgPosition) ([]*msgstream.MsgPack, int) {
 	log := m.logs[vchannel]
 	first := 0
+	if (pos == nil || len(pos.MsgID) == 0) && m.LatestIsPublished {
+		first = m.Published(vchannel)
+	}
 	if pos != nil && len(pos.MsgID) > 0 {
 		for i, p := range log {
 			for _, ep := range p.EndPositions {
@@ -162,6 +204,9 @@ func (m *MQ) filter(vchannel string, pos *msgpb.MsgPosition) ([]*msgstream.MsgPa
 
 func (m *MQ) Register(ctx context.Context, cfg *msgdispatcher.StreamConfig) (<-chan *msgstream.MsgPack, error) {
 	v := cfg.VChannel
+	if m.Fence != nil {
+		m.Fence()
+	}
 	if m.ParkRegister {
 		m.S.Point("mq:"+v, "register", false)
 	}
@@ -181,19 +226,30 @@ func (m *MQ) Register(ctx context.Context, cfg *msgdispatcher.StreamConfig) (<-c
 	}
 	packs, first := m.filter(v, pos)
 	m.Registers = append(m.Registers, RegRecord{VChannel: v, Pos: pos, FirstPack: first})
+	if m.OnRegister != nil {
+		m.OnRegister(RegRecord{VChannel: v, Pos: pos, FirstPack: first})
+	}
 	r := &reg{ch: make(chan *msgstream.MsgPack), closed: make(chan struct{})}
 	m.regs[v] = r
 	m.pending[v] = len(packs)
 	m.mu.Unlock()
 	go func() {
 		defer close(r.ch)
-		for _, p := range packs {
+		for i, p := range packs {
+			if m.TickGap > 0 && len(p.Msgs) == 1 && p.Msgs[0].Type() == commonpb.MsgType_TimeTick {
+				time.Sleep(m.TickGap)
+			}
 			m.S.Point("stream:"+v, "deliver", true) // which stream's next pack arrives is the environment's choice
 			select {
 			case r.ch <- p:
 				m.mu.Lock()
 				m.pending[v]--
 				m.mu.Unlock()
+				m.pub.mu.Lock()
+				if first+i+1 > m.pub.n[v] {
+					m.pub.n[v] = first + i + 1
+				}
+				m.pub.mu.Unlock()
 			case <-r.closed:
 				m.mu.Lock()
 				m.pending[v] = 0
@@ -207,6 +263,9 @@ func (m *MQ) Register(ctx context.Context, cfg *msgdispatcher.StreamConfig) (<-c
 }
 
 func (m *MQ) Deregister(vchannel string) {
+	if m.DeadDeregister != nil && m.DeadDeregister() {
+		return // called under the caller's locks: a dead incarnation must not block here, and has no effect any more
+	}
 	m.mu.Lock()
 	r := m.regs[vchannel]
 	delete(m.regs, vchannel)
